@@ -27,7 +27,7 @@ func init() {
 					"A violation of the real run is attributed to known finding F1 iff it disappears in the counterfactual run and every parent index the hook saw was i/2 or (i-1)/2; any violation in a counterfactual run is a VIOLATION. " +
 					"Reorder to an unrelated order: every heap arrangement of 7 (8 thorough) distinct keys x every ranking as the new order, random ones for 8..24 elements, drain checked under the new order (counterfactual switch on). Very large queues: 262143..1.2 M elements (4 M thorough) put in by Set and Add and drained (count, conservation, drain order with the counterfactual switch on). Long-lived queues: one instance carries 120 000 (500 000 thorough) operations under light observation. heapq.Sort: every input of length <= 7 over 4 values (exhaustive) and random inputs up to 2000. " +
 					"distinct = hash of the op list; non-trivial = the queue reached >= 16 elements or an interior Remove(i) occurred",
-				Required:     []string{"histories", "histories_size_ge16", "interior_removes", "pushup_even_index_calls", "reorders", "sort_inputs", "drains", "large_queue_histories", "big_element_histories", "sparse_observation_histories", "long_lived_queue_runs", "very_large_queues", "reorder_to_unrelated_order_cases"},
+				Required:     []string{"histories", "histories_size_ge16", "interior_removes", "pushup_even_index_calls", "reorders", "sort_inputs", "drains", "large_queue_histories", "big_element_histories", "sparse_observation_histories", "long_lived_queue_runs", "very_large_queues", "reorder_to_unrelated_order_cases", "histories_with_bound_method_values_or_moved_struct"},
 				Exhaustive:   false,
 				Assumptions:  []string{"reference: map of held {Key,Tag} elements; minimality is checked against all held elements under the comparison currently installed", "known finding F1 is excused only through the counterfactual switch in heapq/verif_on.go"},
 				CoverPkgs:    []string{"github.com/creachadair/mds/heapq"},
@@ -119,6 +119,11 @@ func runC05(c *fw.Ctx) {
 		o.sparse = k%4 == 1
 		if o.sparse {
 			c.Add("sparse_observation_histories", 1)
+		}
+		o.bound = k%5 == 2                        // observe through method values bound at construction
+		o.moved = []int{0, 0, 0, 1, 0, 2, 0}[k%7] // the Queue struct moved by value (fresh / after use)
+		if o.bound || o.moved != 0 {
+			c.Add("histories_with_bound_method_values_or_moved_struct", 1)
 		}
 		ops := heapGenOps(r, nops, keyRange, false)
 		viol, st := c05attribute(c, ops, o, "C05")
